@@ -48,3 +48,17 @@ Definition check_typiclust (c : tc_case) : bool :=
   | None, None => true
   | _, _ => false
   end.
+
+(* sampling loops (Badge): (raw weights per step as order keys with 0 preserved, picks in candidate space,
+   observed rows as sign keys: None = NaN, Some 0 = zero mass, Some 1 = positive mass, first pick is an arg max?) *)
+Definition sign_row (r : list val) : list val := map (option_map (fun v => if 0 <? v then 1 else 0)) r.
+Definition sampling_case := (list (list Z) * list nat * list (list val) * bool)%type.
+Definition check_sampling (c : sampling_case) : bool :=
+  let '(raws, picks, rows, first_argmax) := c in
+  let t := sampling_trace raws picks [] in
+  list_eqb (list_eqb oz_eqb) (map (fun s => sign_row (snd s)) t) rows &&
+  contract_ok raws picks [] &&
+  (match raws, picks with
+   | r0 :: _, p0 :: _ => if first_argmax && negb (forallb (Z.eqb 0) r0) then Nat.eqb p0 (argmax_first r0) else true
+   | _, _ => true
+   end).
